@@ -683,6 +683,7 @@ type hverdict struct {
 	linTime      time.Duration
 	linOps       int
 	twoStep      bool // the exact two-step GetLeafValue model had to be consulted
+	partitioned  bool // judged on the per-subtree projections (whole-history check timed out)
 }
 
 func hasKind(h *History, k string) bool {
@@ -694,8 +695,114 @@ func hasKind(h *History, k string) bool {
 	return false
 }
 
-// judge applies all history oracles. A porcupine timeout is inconclusive, never a violation.
-func judge(h *History, timeout time.Duration) (v hverdict) {
+// linCheck runs porcupine: first with the strong model (GetLeafValue atomic) —
+// whatever that explains the exact model explains too (run the lookup and the
+// read back to back) — and, when the strong model says Illegal, with the exact
+// two-step model, which alone can call a history illegal.
+func linCheck(h *History, timeout time.Duration) (res porcupine.CheckResult, c *compiled, ops []porcupine.Operation, twoStep bool, err error) {
+	if c, err = compile(h, true); err != nil {
+		return porcupine.Unknown, nil, nil, false, err
+	}
+	ops = c.operations()
+	res = porcupine.CheckOperationsTimeout(c.model(), ops, timeout)
+	if res == porcupine.Illegal && hasKind(h, "glv") {
+		if c, err = compile(h, false); err != nil {
+			return porcupine.Unknown, nil, nil, true, err
+		}
+		ops = c.operations()
+		res = porcupine.CheckOperationsTimeout(c.model(), ops, timeout)
+		twoStep = true
+	}
+	return res, c, ops, twoStep, nil
+}
+
+// partitionHistory projects a history onto the subtrees below the root's
+// children. Operations on an exact path, and deletes whose pattern starts with
+// a literal element, belong to one subtree; deletes that start with a glob (or
+// are empty) and the final walk are projected onto every subtree: pattern kept,
+// result restricted to the subtree. The model state is a product over the
+// subtrees and every operation acts component-wise, so the projections of a
+// legal sequential history are legal: a history is linearizable only if every
+// projection is (the converse would also need the projections of one delete to
+// take effect at the same instant, which this weaker check does not demand).
+// ok=false: the history contains operations on the root path itself, or
+// snapshots, which do not project.
+func partitionHistory(h *History) (parts map[string]*History, ok bool) {
+	parts = map[string]*History{}
+	part := func(x string) *History {
+		if parts[x] == nil {
+			parts[x] = &History{Seed: h.Seed, Index: h.Index, Workers: h.Workers, Note: "projection onto subtree " + x}
+		}
+		return parts[x]
+	}
+	valPart := map[int]string{}
+	for i := range h.Ops {
+		o := &h.Ops[i]
+		switch o.Kind {
+		case "add", "glv", "getleaf", "hval", "hupd":
+			if len(o.Path) == 0 {
+				return nil, false
+			}
+			part(o.Path[0])
+			if o.Kind == "add" || o.Kind == "hupd" {
+				valPart[o.Val] = o.Path[0]
+			}
+		case "query", "walk":
+			if o.Atomic {
+				return nil, false
+			}
+		}
+		for _, p := range o.Paths {
+			if len(p) == 0 {
+				return nil, false
+			}
+			part(p[0])
+		}
+		for _, e := range o.KV {
+			if len(e.P) == 0 {
+				return nil, false
+			}
+			part(e.P[0])
+		}
+	}
+	for i := range h.Ops {
+		o := h.Ops[i]
+		switch {
+		case o.Kind == "query" || o.Kind == "walk":
+		case o.Kind == "final" || (isDelKind(o.Kind) && (len(o.Path) == 0 || o.Path[0] == "*")):
+			for x, ph := range parts {
+				po := o
+				po.Paths, po.Vals, po.KV = nil, nil, nil
+				for _, p := range o.Paths {
+					if p[0] == x {
+						po.Paths = append(po.Paths, p)
+					}
+				}
+				for _, v := range o.Vals {
+					if vp, known := valPart[v]; !known || vp == x {
+						po.Vals = append(po.Vals, v)
+					}
+				}
+				for _, e := range o.KV {
+					if e.P[0] == x {
+						po.KV = append(po.KV, e)
+					}
+				}
+				ph.Ops = append(ph.Ops, po)
+			}
+		default:
+			ph := part(o.Path[0])
+			ph.Ops = append(ph.Ops, o)
+		}
+	}
+	return parts, true
+}
+
+// judge applies all history oracles. The whole history is checked first
+// (exact); if porcupine does not finish within exactTimeout the per-subtree
+// projections are checked instead (sound, slightly weaker, see
+// partitionHistory). A porcupine timeout is inconclusive, never a violation.
+func judge(h *History, exactTimeout, timeout time.Duration) (v hverdict) {
 	defer func() {
 		if r := recover(); r != nil {
 			v = hverdict{inconclusive: fmt.Sprintf("history checker panicked: %v", r)}
@@ -717,37 +824,109 @@ func judge(h *History, timeout time.Duration) (v hverdict) {
 	if cl, msg := failedAddTrace(h); cl != "" {
 		return hverdict{class: cl, msg: msg}
 	}
+	if cl, msg := lostAdd(h); cl != "" {
+		return hverdict{class: cl, msg: msg}
+	}
 	if cl, msg := intervalRule(h); cl != "" {
 		return hverdict{class: cl, msg: msg}
 	}
-	// First the strong model (GetLeafValue atomic): whatever it explains, the
-	// exact model explains too (run the lookup and the read back to back). Only
-	// when it does not say Ok is the exact two-step model consulted; that one
-	// alone can call a history illegal.
 	t0 := time.Now()
-	ops := c.operations()
-	v.linOps = len(ops)
-	res := porcupine.CheckOperationsTimeout(c.model(), ops, timeout)
-	if res != porcupine.Ok && hasKind(h, "glv") {
-		v.twoStep = true
-		if c, err = compile(h, false); err != nil {
-			return hverdict{inconclusive: "malformed history: " + err.Error()}
-		}
-		ops = c.operations()
-		v.linOps = len(ops)
-		res = porcupine.CheckOperationsTimeout(c.model(), ops, timeout)
+	defer func() { v.linTime = time.Since(t0) }()
+	res, c, ops, two, err := linCheck(h, exactTimeout)
+	if err != nil {
+		return hverdict{inconclusive: "malformed history: " + err.Error()}
 	}
-	v.linTime = time.Since(t0)
+	v.linOps, v.twoStep = len(ops), two
 	switch res {
 	case porcupine.Ok:
 		return v
-	case porcupine.Unknown:
-		v.inconclusive = fmt.Sprintf("porcupine gave up after %v on %d operations", timeout, len(ops))
+	case porcupine.Illegal:
+		v.class = "not-linearizable"
+		v.msg = c.explain(ops, timeout)
 		return v
 	}
-	v.class = "not-linearizable"
-	v.msg = c.explain(ops, timeout)
+	parts, ok := partitionHistory(h)
+	if !ok || len(parts) < 2 {
+		v.inconclusive = fmt.Sprintf("porcupine gave up after %v on %d operations and the history does not split into subtrees", exactTimeout, len(ops))
+		return v
+	}
+	v.partitioned = true
+	var names []string
+	for x := range parts {
+		names = append(names, x)
+	}
+	sort.Strings(names)
+	for _, x := range names {
+		res, pc, pops, two, err := linCheck(parts[x], timeout)
+		if err != nil {
+			return hverdict{inconclusive: "malformed projection: " + err.Error()}
+		}
+		v.twoStep = v.twoStep || two
+		switch res {
+		case porcupine.Illegal:
+			v.class = "not-linearizable"
+			v.msg = fmt.Sprintf("projection onto the subtree below %q (deletes that span subtrees keep their pattern, results restricted): %s", x, pc.explain(pops, timeout))
+			return v
+		case porcupine.Unknown:
+			v.inconclusive = fmt.Sprintf("porcupine gave up after %v on the whole history (%d operations) and after %v on the projection onto subtree %q (%d operations)", exactTimeout, len(ops), timeout, x, len(pops))
+			return v
+		}
+	}
 	return v
+}
+
+// lostAdd: an Add that returned nil is present with its value once everything
+// has finished, unless a write to the same path or a delete that removed the
+// path did not finish before that Add began (then it may have come later).
+func lostAdd(h *History) (string, string) {
+	var fin *HOp
+	for i := range h.Ops {
+		if h.Ops[i].Kind == "final" {
+			fin = &h.Ops[i]
+		}
+	}
+	if fin == nil {
+		return "", ""
+	}
+	final := map[string]int{}
+	for _, e := range fin.KV {
+		final[key(e.P)] = e.V
+	}
+	wpaths := map[int][]string{}
+	for i := range h.Ops {
+		if o := &h.Ops[i]; o.Kind == "add" || o.Kind == "hupd" {
+			wpaths[o.Val] = append(wpaths[o.Val], key(o.Path))
+		}
+	}
+	for i := range h.Ops {
+		a := &h.Ops[i]
+		if a.Kind != "add" || a.Err != "" || a.Ret > fin.Call {
+			continue
+		}
+		k := key(a.Path)
+		if final[k] == a.Val {
+			continue
+		}
+		explained := false
+		for j := range h.Ops {
+			o := &h.Ops[j]
+			if j == i || o.Ret < a.Call {
+				continue
+			}
+			switch {
+			case (o.Kind == "add" && o.Err == "" || o.Kind == "hupd") && key(o.Path) == k:
+				explained = true
+			case isDelKind(o.Kind):
+				for _, r := range removedBy(h, o, wpaths) {
+					explained = explained || r == k
+				}
+			}
+		}
+		if !explained {
+			return "lost-add", fmt.Sprintf("%s returned nil, no later or overlapping operation wrote or removed that path, yet the final content has %q=%s: %s", a, a.Path, vstr(final[k]), kvstr(fin.KV))
+		}
+	}
+	return "", ""
 }
 
 // explain re-runs the check in verbose mode and describes where the longest
@@ -1079,11 +1258,19 @@ func classify(h *History) *hclass {
 			if b.Call > a.Ret {
 				break
 			}
-			if a.G == b.G || b.Kind == "final" || !related(a.Path, b.Path) {
+			if a.G == b.G || b.Kind == "final" {
+				continue
+			}
+			ka, kb := a.Kind, b.Kind
+			if ka == "add" && kb == "add" && a.Err == "" && b.Err == "" && len(a.Path) > 1 && len(b.Path) > 1 && a.Path[0] == b.Path[0] && key(a.Path) != key(b.Path) {
+				// siblings or cousins: they share the branch nodes above them (and its creation)
+				c.nontrivial = true
+				c.add("adds-overlap-under-common-branch")
+			}
+			if !related(a.Path, b.Path) {
 				continue
 			}
 			c.nontrivial = true
-			ka, kb := a.Kind, b.Kind
 			pair := func(p, q func(string) bool) bool { return (p(ka) && q(kb)) || (p(kb) && q(ka)) }
 			is := func(k string) func(string) bool { return func(s string) bool { return s == k } }
 			isRead := func(s string) bool { return s == "glv" || s == "getleaf" }
@@ -1092,8 +1279,6 @@ func classify(h *History) *hclass {
 			switch {
 			case ka == "add" && kb == "add" && same:
 				c.add("add-overlaps-add-same-path")
-			case ka == "add" && kb == "add" && a.Err == "" && b.Err == "" && len(a.Path) > 1 && len(b.Path) > 1 && a.Path[0] == b.Path[0]:
-				c.add("adds-overlap-under-common-branch")
 			case ka == "add" && kb == "add":
 				c.add("add-overlaps-add-prefix-related")
 			case pair(isDelKind, is("add")):
